@@ -541,6 +541,17 @@ def tcp_oracle(case, obs, flavour):
     return out
 
 
+def shrink_range(case):
+    """Steps that may be removed when shrinking: everything after the warm-up step and before
+    the final release/drain block (the steps after the last host command)."""
+    steps = case["steps"]
+    last = 0
+    for k, st in enumerate(steps):
+        if any(st.get("hosts", {}).values()):
+            last = k
+    return ("steps", 1, last + 1)
+
+
 def case_signature(case):
     return json.dumps([case["cfg"]["nhosts"], case["steps"]], sort_keys=True)
 
